@@ -200,6 +200,15 @@ pub fn run(ctx: &mut Ctx) {
         }
         do_parse(ctx, &s, &mut pool);
     }
+    // the order at the ends of the revision's range: the letter outranks any revision, a missing revision is revision 0
+    {
+        let revs: Vec<Option<usize>> = vec![None, Some(0), Some(1), Some(255), Some(65535), Some(65536), Some(u32::MAX as usize - 1), Some(u32::MAX as usize), Some(u32::MAX as usize + 1),
+            Some(9_999_999_999), Some(1usize << 40), Some(1usize << 63), Some(usize::MAX - 1), Some(usize::MAX)];
+        let mut ext: Vec<GameVersion> = vec![];
+        for major in [0.6f32, 0.7] { for minor in ['A', 'B', 'Z'] { for r in &revs { ext.push(GameVersion { major, minor, patch: *r }); } } }
+        for a in &ext { for b in &ext { do_cmp(ctx, a, b); } }
+        ctx.exhaustive_domains.push(format!("order on all pairs of {} versions: 2 numbers x 3 letters x 14 revisions from none to usize::MAX", ext.len()));
+    }
     // order axioms over all pairs and triples of the parsed pool
     pool.sort_by(|a, b| gv_tok(a).cmp(&gv_tok(b)));
     pool.dedup_by(|a, b| gv_tok(a) == gv_tok(b));
